@@ -112,6 +112,14 @@ def run_json(case, acc):
         if r.error is not None or r.completed != 1 or r.items != objs:
             return [viol(enc, 'json-load_from_file-differs', {'objects': objs, 'compression': comp, 'read_schedule': sched,
                                                               'loaded': r.items, 'error': repr(r.error)})]
+    # the same through the single-document path (lines=False) for a one-object file
+    if len(objs) == 1:
+        r = RawSink()
+        r.subscribe_to(rsjson.load_from_file(Device(data), lines=False, encoding=enc, compression=comp))
+        acc.evals += 1
+        if r.error is not None or r.items != objs:
+            return [viol(enc, 'json-load_from_file-lines=False-differs', {'objects': objs, 'compression': comp, 'loaded': r.items,
+                                                                          'error': repr(r.error)})]
     acc.count('json_files')
     acc.outcomes.add(fast_hash((enc, comp, case['objs'])))
     return []
